@@ -30,6 +30,7 @@ ASSUMPTIONS = [
     "identical means numpy.array_equal (the computation is deterministic)",
     "'repeating a call' covers any two identical calls within one simulation, also with other recovery calls in between (the interpolator follows the most recent recovery mode and is compared only while no recovery call intervenes)",
     "the interpolator is also evaluated at the simulated times and must reproduce there the array returned by the latest recovery call of the current simulation (rtol 1e-12)",
+    "an additional operation beyond the property's alphabet: assigning the object's public fields (nx, pressures, fluid) to a second set of values and simulating again; the reference is then a fresh object constructed with the field values in force at the latest simulate",
     "schedule-carrying simulate calls are not in the alphabet (the property's alphabet has none)",
     "calls made before any simulate must raise (any exception) and leave the object usable",
 ]
@@ -96,7 +97,30 @@ def config(draw):
         C = grid(nc)
     base["grids"] = {"A": A, "B": B, "C": C}
     base["grid_modes"] = [mode_b, mode_c]
+    # a second set of field values for the same object (the reservoir classes are mutable dataclasses: a sweep over
+    # initial pressures re-uses one object, assigns fluid / pressures / nx and simulates again)
+    base["alt"] = {"pair": draw(tables.pressure_pair()), "nx": draw(st.integers(3, 12)), "ratio": draw(st.floats(0.05, 0.95))}
     return base
+
+
+def variant_cfg(cfg, variant):
+    """The configuration with the alternative field values substituted (variant 'alt'), else cfg itself."""
+    if variant != "alt" or "alt" not in cfg:
+        return cfg
+    c = dict(cfg)
+    alt = cfg["alt"]
+    c["nx"] = alt["nx"]
+    if cfg["cls"] == "ideal":
+        c["p_f"] = cfg["p_i"] * alt["ratio"] * 0.98
+    else:
+        c["pair"] = alt["pair"]
+    return c
+
+
+def assign_fields(obj, cfg, variant):
+    """Give the used object the field values of the variant (public dataclass fields only)."""
+    fresh = make_object(variant_cfg(cfg, variant))
+    obj.nx, obj.pressure_fracface, obj.pressure_initial, obj.fluid = fresh.nx, fresh.pressure_fracface, fresh.pressure_initial, fresh.fluid
 
 
 def make_object(cfg):
@@ -129,7 +153,7 @@ def epoch_repeat_check(history, results, res):
     recovery mode, so it is only compared while no recovery call intervenes)."""
     seen = {}
     for op, (status, value) in zip(history, results):
-        if op[0] == "sim":
+        if op[0] in ("sim", "setsim"):
             seen = {}
             continue
         if op[0] in ("rf", "rfd"):
@@ -151,7 +175,7 @@ def interpolator_follows_latest_recovery(history, results, res):
         return
     latest = None
     for o, (st_, v) in zip(history[:-1][::-1], results[:-1][::-1]):
-        if o[0] == "sim":
+        if o[0] in ("sim", "setsim"):
             break
         if o[0] in ("rf", "rfd") and st_ == "ok":
             latest = (o[0], v)
@@ -171,6 +195,10 @@ def apply_op(obj, op, cfg):
     try:
         if op[0] == "sim":
             obj.simulate(np.array(cfg["grids"][op[1]], float))
+            return "ok", None
+        if op[0] == "setsim":
+            assign_fields(obj, cfg, op[1])
+            obj.simulate(np.array(cfg["grids"][op[2]], float))
             return "ok", None
         if op[0] == "rf":
             return "ok", np.array(obj.recovery_factor(), float, copy=True)
@@ -193,17 +221,19 @@ def same(a, b):
 
 def compare_with_fresh(cfg, history, obj, status, value, res: Result):
     """The reference model: a fresh object replaying the suffix that starts at the last simulate."""
-    last_sim = max((i for i, op in enumerate(history) if op[0] == "sim"), default=None)
+    last_sim = max((i for i, op in enumerate(history) if op[0] in ("sim", "setsim")), default=None)
     op = history[-1]
     what = f"after {history}"
     if last_sim is None:
         if status != "raised":
             res.bad("C10/raises-before-simulate", f"{op} returned normally before any simulate ({what})")
         return
-    fresh = make_object(cfg)
+    # the field values in force at the latest simulate: those of the most recent 'setsim', else the original ones
+    variant = next((o[1] for o in history[: last_sim + 1][::-1] if o[0] == "setsim"), "orig")
+    fresh = make_object(variant_cfg(cfg, variant))
     f_status, f_value = "ok", None
     for o in history[last_sim:]:
-        f_status, f_value = apply_op(fresh, o, cfg)
+        f_status, f_value = apply_op(fresh, ["sim", o[2]] if o[0] == "setsim" else o, cfg)
     if f_status == "raised":
         if status != "raised":
             res.bad("C10/matches-fresh-object", f"fresh object raises {f_value} where the used object returned normally ({what})")
@@ -230,7 +260,7 @@ def nontrivial(history):
     for op in history:
         if stage == 0 and op[0] in ("rf", "rfd", "interp"):
             stage = 1
-        elif stage == 1 and op[0] == "sim":
+        elif stage == 1 and op[0] in ("sim", "setsim"):
             stage = 2
         elif stage == 2 and op[0] in ("rf", "rfd", "interp"):
             return True
@@ -249,7 +279,7 @@ def run_history(cfg, history) -> Result:
         compare_with_fresh(cfg, history[: i + 1], obj, status, value, res)
         epoch_repeat_check(history[: i + 1], results, res)
         interpolator_follows_latest_recovery(history[: i + 1], results, res)
-        if i > 0 and history[i - 1] == op and op[0] != "sim" and prev is not None and prev[0] == "ok" and status == "ok":
+        if i > 0 and history[i - 1] == op and op[0] not in ("sim", "setsim") and prev is not None and prev[0] == "ok" and status == "ok":
             if not same(prev[1], value):
                 res.bad("C10/repeat-gives-same-result", f"repeating {op[0]} changed its result (history {history[: i + 1]})")
         prev = (status, value)
@@ -258,8 +288,8 @@ def run_history(cfg, history) -> Result:
     res.nontrivial = nontrivial(history)
     res.labels["cls"] = cfg["cls"]
     res.labels["len"] = len(history)
-    res.labels["simulates"] = sum(1 for o in history if o[0] == "sim")
-    res.labels["has_length_change"] = len({len(cfg["grids"][o[1]]) for o in history if o[0] == "sim"}) > 1
+    res.labels["simulates"] = sum(1 for o in history if o[0] in ("sim", "setsim"))
+    res.labels["has_length_change"] = len({len(cfg["grids"][o[-1]]) for o in history if o[0] in ("sim", "setsim")}) > 1
     return res
 
 
@@ -302,7 +332,7 @@ def run_worker(ctx: core.WorkerContext):
             self.pending = (status, value)
             epoch_repeat_check(self.history, self.results, self.res)
             interpolator_follows_latest_recovery(self.history, self.results, self.res)
-            if len(self.history) > 1 and self.history[-2] == op and op[0] != "sim" and self.prev and self.prev[0] == "ok" and status == "ok":
+            if len(self.history) > 1 and self.history[-2] == op and op[0] not in ("sim", "setsim") and self.prev and self.prev[0] == "ok" and status == "ok":
                 if not same(self.prev[1], value):
                     self.res.bad("C10/repeat-gives-same-result", f"repeating {op[0]} changed its result (history {self.history})")
             self.prev = (status, value)
@@ -320,6 +350,11 @@ def run_worker(ctx: core.WorkerContext):
         def simulate_c(self):
             self._do(["sim", "C"])
 
+        @precondition(lambda self: self.cfg is not None and "alt" in self.cfg)
+        @rule(variant=st.sampled_from(["alt", "orig"]), grid=st.sampled_from(["A", "B", "C"]))
+        def assign_fields_and_simulate(self, variant, grid):
+            self._do(["setsim", variant, grid])
+
         @rule()
         def recovery_factor(self):
             self._do(["rf"])
@@ -333,7 +368,7 @@ def run_worker(ctx: core.WorkerContext):
         def interpolator(self, q):
             self._do(["interp", q])
 
-        @precondition(lambda self: len(self.history) > 0 and self.history[-1][0] != "sim")
+        @precondition(lambda self: len(self.history) > 0 and self.history[-1][0] not in ("sim", "setsim"))
         @rule()
         def repeat_last(self):
             self._do(list(self.history[-1]))
@@ -359,8 +394,9 @@ def run_worker(ctx: core.WorkerContext):
             r = Result(nontrivial=nontrivial(self.history))
             r.labels["cls"] = self.cfg["cls"]
             r.labels["len"] = len(self.history)
-            r.labels["simulates"] = min(4, sum(1 for o in self.history if o[0] == "sim"))
-            r.labels["has_length_change"] = len({len(self.cfg["grids"][o[1]]) for o in self.history if o[0] == "sim"}) > 1
+            r.labels["simulates"] = min(4, sum(1 for o in self.history if o[0] in ("sim", "setsim")))
+            r.labels["fields_reassigned"] = any(o[0] == "setsim" for o in self.history)
+            r.labels["has_length_change"] = len({len(self.cfg["grids"][o[-1]]) for o in self.history if o[0] in ("sim", "setsim")}) > 1
             r.labels["grid_B"] = self.cfg.get("grid_modes", ["?", "?"])[0]
             r.labels["grid_C"] = self.cfg.get("grid_modes", ["?", "?"])[1]
             r.counts["steps"] = len(self.history)
